@@ -247,6 +247,13 @@ def operand_assignments(op: str, n: int) -> Iterable[List[Any]]:
 
 def arities_to_test(op: str, sites: List[Site]) -> List[int]:
     out: Set[int] = set()
+    # every arity the operator's meaning allows (the constructors are public: `IntExpr(Op.SUB, [a, b, c])` is a legal tree even
+    # if no library site builds it), up to MAX_ARITY ...
+    if op in REF:
+        lo_r, hi_r = REF[op]["arity"]
+        out |= set(range(lo_r, (hi_r if hi_r is not None else MAX_ARITY) + 1))
+        out = {n for n in out if n <= MAX_ARITY}
+    # ... and whatever the library's own construction sites can produce
     for s in sites:
         lo = s.arity_lo or 0
         hi = s.arity_hi
